@@ -16,7 +16,7 @@ use qbice::{
 };
 use simkit::sched::{self, Kind as PK};
 
-use crate::program::{BoxFut, Kind, Program, Reader, Val, eval};
+use crate::program::{Abort, BoxFut, Kind, Program, Reader, Val, eval};
 
 macro_rules! query_type {
     ($name:ident) => {
@@ -236,17 +236,19 @@ impl<C: Config> EngineReader<'_, C> {
 }
 
 impl<C: Config> Reader for EngineReader<'_, C> {
-    fn read(&self, n: u32) -> BoxFut<'_, Val> { Box::pin(self.read_one(n)) }
+    fn read(&self, n: u32) -> BoxFut<'_, Result<Val, Abort>> {
+        Box::pin(async move { Ok(self.read_one(n).await) })
+    }
 
-    fn read_join(&self, ns: &[u32]) -> BoxFut<'_, Vec<Val>> {
+    fn read_join(&self, ns: &[u32]) -> BoxFut<'_, Result<Vec<Val>, Abort>> {
         let ns = ns.to_vec();
         Box::pin(async move {
-            futures::future::join_all(ns.iter().map(|n| self.read_one(*n)))
-                .await
+            Ok(futures::future::join_all(ns.iter().map(|n| self.read_one(*n)))
+                .await)
         })
     }
 
-    fn read_unord(&self, ns: &[u32]) -> BoxFut<'_, Vec<Val>> {
+    fn read_unord(&self, ns: &[u32]) -> BoxFut<'_, Result<Vec<Val>, Abort>> {
         let ns = ns.to_vec();
         Box::pin(async move {
             // SAFETY (engine contract): the reads of the group are
@@ -256,7 +258,7 @@ impl<C: Config> Reader for EngineReader<'_, C> {
                 futures::future::join_all(ns.iter().map(|n| self.read_one(*n)))
                     .await;
             unsafe { self.te.end_unordered_callee_group() };
-            r
+            Ok(r)
         })
     }
 }
@@ -311,7 +313,9 @@ impl NodeExec {
             h.world.lock().get(&n).cloned().unwrap_or_default()
         } else {
             let reader = EngineReader { h, te, inv: id };
-            eval(&h.program.nodes[n as usize].expr, &reader).await
+            eval(&h.program.nodes[n as usize].expr, &reader)
+                .await
+                .expect("the engine reader never aborts")
         };
         sched::task_point("h_exec_exit", PK::Harness).await;
         {
